@@ -45,6 +45,20 @@ pub fn feed<Wr: Writer<TW>>(w: &mut Wr, items: &[Item], cli: &Wr::Cli) {
     });
 }
 
+/// Like `feed`, but from input `at` on the stream goes to a clone of the writer (the original is
+/// dropped): a clone taken mid-run is the same writer in the same state.
+pub fn feed_cloning<Wr: Writer<TW> + Clone>(w: &mut Wr, items: &[Item], cli: &Wr::Cli, at: Option<usize>) {
+    block_on(async {
+        for (i, it) in items.iter().enumerate() {
+            if at == Some(i) {
+                let copy = w.clone();
+                drop(std::mem::replace(w, copy));
+            }
+            w.handle_event(it.clone(), cli).await;
+        }
+    });
+}
+
 pub fn basic_cli() -> writer::basic::Cli {
     writer::basic::Cli { verbose: 0, color: Coloring::Never }
 }
